@@ -119,6 +119,135 @@ def r1_dispatch(ctx):
                   'a chain link is dropped by _preprocess_chain on this path', path=p.describe())
 
 
+def r1k_dispatch_by_kind(ctx):
+    """R1k: the dispatch decided per *kind of link*.  Every path through one iteration of the dispatch loop is replayed, without
+    running anything, on a finite set of abstract link values (sa/kinds.py: nested Flow, processor instance, function, bound
+    method, partial / callable object, empty and non-empty list / tuple of rows, generator, None, integer): the type tests on
+    the path are evaluated three-valued on the kind, and a path that a kind definitely takes must end in the outcome that kind
+    calls for - a Flow is spliced, a processor is called on the stream, a callable is wrapped by signature (or rejected), any
+    iterable of rows (empty ones included) is loaded as a resource, anything else is rejected."""
+    from sa.kinds import KindEval, link_kinds
+    from sa.pathvals import PathValues
+    from sa.pattern import match_expr
+    run = ctx.run
+    run.rule('R1k', 'DISPATCH-BY-KIND: for each kind of link (nested Flow, processor, function, bound method, partial / callable '
+                    'object, empty / non-empty list or tuple of rows, generator, None, integer) every path of the dispatch loop '
+                    'that the kind definitely takes (its type tests evaluated on the kind, vacuous all()/any() over an empty '
+                    'collection included) ends in the outcome the kind calls for: splice / call / wrap by signature or reject / '
+                    'load as a resource / reject')
+    flow, m, loop = find_dispatch_loop(ctx)
+    tgt = loop.target
+    link = tgt.elts[-1].id if isinstance(tgt, ast.Tuple) else tgt.id
+    rets = [n for n in own_nodes(m.node) if isinstance(n, ast.Return) and isinstance(n.value, ast.Name)]
+    ds = rets[-1].value.id
+    mod = flow.module
+
+    def resolve_helper(f):
+        if isinstance(f, ast.Attribute) and isinstance(f.value, ast.Name) and f.value.id in ('self', 'cls', flow.name):
+            mi = ctx.res.lookup_method(flow, f.attr)
+            return mi.node if mi is not None else None
+        if isinstance(f, ast.Name):
+            fi = ctx.repo.functions.get('%s:%s' % (mod.name, f.id))
+            if fi is not None:
+                return fi.node
+            # a local lambda / def of the dispatching method
+            for n in ast.walk(m.node):
+                if isinstance(n, ast.Assign) and len(n.targets) == 1 and isinstance(n.targets[0], ast.Name) and \
+                        n.targets[0].id == f.id and isinstance(n.value, ast.Lambda):
+                    return n.value
+                if isinstance(n, ast.FunctionDef) and n.name == f.id and n is not m.node:
+                    return n
+        return None
+
+    consts = {}
+    for nm, defs in mod.defs.items():
+        for d in defs:
+            if isinstance(d, tuple) and d[0] == 'assign' and isinstance(d[1], (ast.Tuple, ast.Name, ast.Attribute)):
+                consts[nm] = d[1]
+    for nm, v in flow.attrs.items():
+        if isinstance(v, (ast.Tuple, ast.Name, ast.Attribute)):
+            consts.setdefault(nm, v)
+    ke = KindEval(resolve_helper, consts)
+    KIND_TESTS = {'isinstance', 'callable', 'isfunction', 'isroutine', 'hasattr', 'all', 'any', 'issubclass', 'type', 'len', 'bool'}
+
+    def is_kind_test(t):
+        if link not in names_in(t):
+            return False
+        if isinstance(t, ast.Name):
+            return True
+        for n in ast.walk(t):
+            if isinstance(n, ast.Call):
+                fn = n.func.id if isinstance(n.func, ast.Name) else (n.func.attr if isinstance(n.func, ast.Attribute) else None)
+                direct = any(isinstance(a, ast.Name) and a.id == link for a in n.args)
+                if fn in ('all', 'any') and n.args:
+                    a0 = n.args[0]
+                    if isinstance(a0, ast.Call) and isinstance(a0.func, ast.Name) and a0.func.id in ('map', 'filter'):
+                        direct = direct or any(isinstance(a, ast.Name) and a.id == link for a in a0.args)
+                    if isinstance(a0, (ast.GeneratorExp, ast.ListComp)):
+                        direct = direct or any(isinstance(g.iter, ast.Name) and g.iter.id == link for g in a0.generators)
+                if direct and (fn in KIND_TESTS or resolve_helper(n.func) is not None):
+                    return True
+            if isinstance(n, ast.UnaryOp) and isinstance(n.op, ast.Not) and isinstance(n.operand, ast.Name) and n.operand.id == link:
+                return True
+            if isinstance(n, ast.Compare) and isinstance(n.left, ast.Name) and n.left.id == link:
+                return True
+        return False
+
+    def outcome(p, pv):
+        if p.term == RAISE:
+            return 'reject'
+        v = pv.value(ds)
+        if v is None:
+            return 'skip'
+        if match_expr('%s._chain(%s)' % (link, ds), v) is not None:
+            return 'splice'
+        if isinstance(v, ast.Call) and v.args and isinstance(v.args[0], ast.Name) and v.args[0].id == ds and len(v.args) == 1:
+            f = v.func
+            if isinstance(f, ast.Name) and f.id == link:
+                return 'call'
+            if isinstance(f, ast.Call) and len(f.args) == 1 and isinstance(f.args[0], ast.Name) and f.args[0].id == link \
+                    and not f.keywords:
+                w = f.func
+                return 'load' if (isinstance(w, ast.Name) and w.id == 'iterable_loader') else 'wrap'
+        return 'other: %s = %s' % (ds, u(v))
+
+    WANT = {'a nested Flow': {'splice'}, 'a processor instance': {'call'},
+            'a plain function / lambda': {'wrap', 'reject'}, 'a bound method': {'wrap', 'reject'},
+            'a functools.partial / callable object': {'wrap', 'reject'},
+            'an empty list of rows': {'load'}, 'an empty tuple of rows': {'load'}, 'a non-empty list of rows': {'load'},
+            'a non-empty tuple of rows': {'load'}, 'a generator of rows': {'load'}, 'None': {'reject'}, 'an integer': {'reject'}}
+    paths = list(Enumerator(cap=4096, where=m.qualname).body_paths(loop))
+    decided = 0
+    for kind in link_kinds():
+        taken = []
+        for p in paths:
+            pv = PathValues(p)
+            verdict = True
+            for t, pol in pv.guards:
+                val = ke.kev(t, {link: kind})
+                if val is None:
+                    if is_kind_test(t):
+                        verdict = None      # a type test this evaluator cannot decide for the kind: say nothing about the path
+                        break
+                    continue                # a test on something else (signature, parameter names): either way
+                if val != pol:
+                    verdict = False
+                    break
+            if verdict:
+                taken.append((p, outcome(p, pv)))
+        for p, out in taken:
+            decided += 1
+            guards = ' & '.join(('' if pol else 'not ') + u(t) for t, pol in p.guards())
+            if out in WANT[kind.name]:
+                run.ok('R1k', where(ctx.repo, loop), '%s -> %s' % (kind.name, out), guards)
+            else:
+                last = p.items[-1].node if p.items else loop
+                run.fail('R1k', where(ctx.repo, last), m.qualname, '%s -> %s' % (kind.name, out),
+                         'a link that is %s takes a path that does not %s it (outcome: %s): the link does not take effect as the '
+                         'kind of step it is' % (kind.name, ' / '.join(sorted(WANT[kind.name])), out), path=p.describe())
+    run.floor('R1k', decided, 12, '(kind, path) pairs decided')
+
+
 def r2_isolation(ctx):
     run = ctx.run
     run.rule('R2', 'ISOLATION: the Package a step edits is built from copy.deepcopy(<upstream descriptor>); the value '
